@@ -210,6 +210,8 @@ def check_one_step(ctx, kind, m, subs, bnds, label, order=1, disjoint=True):
     nvr = int(np.max(r.t)) + 1 if order == 2 else r.p.shape[1]
     if order == 1 and not r.is_valid():
         ctx.fail(f'uniform-invalid:{cname}', 'refined mesh fails is_valid()', data)
+    if order == 2 and m.is_valid() and not r.is_valid():      # meaningful once is_valid supports quadratic meshes (N38)
+        ctx.fail(f'uniform-invalid:{cname}', 'valid second-order mesh refined to one that fails is_valid()', data)
     st = ex.Step(kind, m.p[:, :nv], m.t, r.p[:, :nvr], r.t, uniform=True, disjoint=disjoint)
     ctx.count(('step', kind, cname, m.p.tolist(), m.t.tolist(), sorted((k, v.tolist()) for k, v in tags_s.items()),
                sorted((k, v.tolist()) for k, v in tags_b.items())),
